@@ -219,6 +219,13 @@ func init() {
 				for i := 0; i < nf; i++ {
 					cs = append(cs, fw.Case{ID: fmt.Sprintf("filter/%d", i), Kind: "filter", P: map[string]any{"i": i}})
 				}
+				// the gate list evaluated on really compiled systems (variables instead of constants)
+				cs = append(cs, fw.Case{ID: "compiled/r1cs/0", Kind: "compiled", P: map[string]any{"sys": "r1cs", "part": 0}})
+				cs = append(cs, fw.Case{ID: "compiled/r1cs/1", Kind: "compiled", P: map[string]any{"sys": "r1cs", "part": 1}})
+				if !ctx.Quick {
+					cs = append(cs, fw.Case{ID: "compiled/scs/0", Kind: "compiled", P: map[string]any{"sys": "scs", "part": 0}})
+					cs = append(cs, fw.Case{ID: "compiled/scs/1", Kind: "compiled", P: map[string]any{"sys": "scs", "part": 1}})
+				}
 				return cs
 			},
 			Exec: func(ctx *fw.Ctx, c fw.Case) fw.Outcome {
@@ -236,6 +243,116 @@ func init() {
 					return consts, wires, ref.HashOut{randGL(r), randGL(r), randGL(r), randGL(r)}
 				}
 				switch c.Kind {
+				case "compiled":
+					// one gate of every type (part 0: first parameterisation of the grid, part 1: last),
+					// two selector groups, inputs are circuit variables
+					sys := c.Str("sys")
+					byType := map[string][]string{}
+					var order []string
+					for _, id := range gateGrid(true) {
+						sp, _ := ref.ParseGateID(id)
+						if len(byType[sp.Type]) == 0 {
+							order = append(order, sp.Type)
+						}
+						byType[sp.Type] = append(byType[sp.Type], id)
+					}
+					var chosen []string
+					var specs []ref.GateSpec
+					for _, t := range order {
+						id := byType[t][0]
+						if c.Int("part") == 1 {
+							id = byType[t][len(byType[t])-1]
+						}
+						sp, _ := ref.ParseGateID(id)
+						chosen = append(chosen, id)
+						specs = append(specs, sp)
+					}
+					ng := len(chosen)
+					k := ng / 2
+					groups := []ref.Group{{Start: 0, End: k}, {Start: k, End: ng}}
+					selIdx := make([]int, ng)
+					for i := k; i < ng; i++ {
+						selIdx[i] = 1
+					}
+					nsel := 2
+					nconst := nsel + c15Consts
+					numC := 0
+					{
+						cz := make([]ref.E, c15Consts)
+						wz := make([]ref.E, c15Wires)
+						for _, sp := range specs {
+							if n := len(ref.EvalUnfiltered(sp, ref.Vars{Constants: cz, Wires: wz})); n > numC {
+								numC = n
+							}
+						}
+					}
+					fn := func(api frontend.API, in []frontend.Variable) []frontend.Variable {
+						var gs []gates.Gate
+						for _, id := range chosen {
+							gs = append(gs, gates.GateInstanceFromId(id))
+						}
+						chip := gates.NewEvaluateGatesChip(api, gs, uint64(numC), *gates.NewSelectorsInfo([]uint64(u64s(selIdx)), []uint64{0, uint64(k)}, []uint64{uint64(k), uint64(ng)}))
+						lc := make([]gl.QuadraticExtensionVariable, nconst)
+						for i := range lc {
+							lc[i] = gl.QuadraticExtensionVariable{gl.NewVariable(in[2*i]), gl.NewVariable(in[2*i+1])}
+						}
+						off := 2 * nconst
+						lw := make([]gl.QuadraticExtensionVariable, c15Wires)
+						for i := range lw {
+							lw[i] = gl.QuadraticExtensionVariable{gl.NewVariable(in[off+2*i]), gl.NewVariable(in[off+2*i+1])}
+						}
+						off += 2 * c15Wires
+						h := poseidon.GoldilocksHashOut{gl.NewVariable(in[off]), gl.NewVariable(in[off+1]), gl.NewVariable(in[off+2]), gl.NewVariable(in[off+3])}
+						outs := chip.EvaluateGateConstraints(*gates.NewEvaluationVars(lc, lw, h))
+						var flat []frontend.Variable
+						for _, q := range outs {
+							flat = append(flat, q[0].Limb, q[1].Limb)
+						}
+						return flat
+					}
+					nIn := 2*nconst + 2*c15Wires + 4
+					var ios []compiledIO
+					nrows := 3
+					if !ctx.Quick {
+						nrows = 12
+					}
+					for row := 0; row < nrows; row++ {
+						consts := make([]ref.E, nconst)
+						for i := range consts {
+							consts[i] = c15RandE(r)
+						}
+						// selectors: row 0 selects a gate of group 0, row 1 one of group 1, then random
+						switch row {
+						case 0:
+							consts[0], consts[1] = ref.EFrom(uint64(r.Intn(k))), ref.EFrom(ref.UnusedSelector)
+						case 1:
+							consts[0], consts[1] = ref.EFrom(ref.UnusedSelector), ref.EFrom(uint64(k+r.Intn(ng-k)))
+						}
+						wires := make([]ref.E, c15Wires)
+						for i := range wires {
+							wires[i] = c15RandE(r)
+						}
+						pih := ref.HashOut{randGL(r), randGL(r), randGL(r), randGL(r)}
+						want := ref.EvaluateGateConstraints(specs, selIdx, groups, numC, ref.Vars{Constants: consts, Wires: wires, PIHash: pih})
+						var in, out []*big.Int
+						for _, e := range consts {
+							in = append(in, bu(e[0]), bu(e[1]))
+						}
+						for _, e := range wires {
+							in = append(in, bu(e[0]), bu(e[1]))
+						}
+						for _, x := range pih {
+							in = append(in, bu(x))
+						}
+						for _, e := range want {
+							out = append(out, bu(e[0]), bu(e[1]))
+						}
+						ios = append(ios, compiledIO{In: in, Out: out})
+					}
+					if v, bad := compiledAgree(&o, sys, "gates", fn, nIn, 2*numC, ios); bad {
+						return v
+					}
+					o.Sample = map[string]any{"system": sys, "gates": specTypes(specs), "constraints_per_row": numC}
 				case "rand", "honest":
 					id := c.Str("id")
 					spec, ok := ref.ParseGateID(id)
@@ -384,6 +501,14 @@ func init() {
 			},
 		}
 	})
+}
+
+func u64s(a []int) []uint64 {
+	o := make([]uint64, len(a))
+	for i := range a {
+		o[i] = uint64(a[i])
+	}
+	return o
 }
 
 func specTypes(s []ref.GateSpec) []string {
